@@ -251,7 +251,7 @@ def sweep(tier, seed):
 
 
 PROP = Prop("C20", [
-    Test("threads", body, quick=800, thorough=20000, shard_size=100),
+    Test("threads", body, quick=2400, thorough=20000, shard_size=150),
 ], RULE, assumptions=[
     "the scheduler owns interleavings at the granularity of yield points placed in user code (function entry, between operations, before "
     "return, between API calls); pre-emption inside a single autograd-internal statement is not explored",
